@@ -139,6 +139,14 @@ CHECKS.update({
             "A real descriptor wallet (production SQLite) attached through interfaces::Chain to a real regtest node since genesis; seeded histories of 18-90 operations: external receives and their double-spends (RBF or held for a block), wallet sends (self-recipients, subtract-fee, chaining on own unconfirmed change or on unconfirmed receives, all change types), wallet-signed double-spends held for a block / replaced / committed, joint transactions, blocks of seeded mempool subsets and held conflicts, reorgs of depth 1-6 re-including seeded subsets, invalidateblock/reconsiderblock, abandontransaction, clock jumps that make mempool expiry run, trimming, unload + offline history + load with rescan, node restart, rescanblockchain, resubmission; coinbases straddle the 100/101 confirmation boundary. After every operation (signals drained): trusted / untrusted-pending / immature balances equal a pure recomputation from the model's UTXO(tip) + the real mempool for the wallet's scripts; AvailableCoins (safe and unsafe) equals the model's coin list (outpoint, value, script, depth, safe flag); coins spent by chain-conflicted or abandoned transactions are restored.",
             "Validation-interface callbacks run on a deferred runner that drains when cs_main is released (as the scheduler thread would); AvailableCoins additionally depends on which unconfirmed transactions the wallet knows (recorded notification history). One known finding (transaction committed on an already chain-conflicted parent keeps its other inputs reserved). No storage faults here (C43).",
             "deterministic simulation: real wallet + real node under seeded chain/mempool histories; oracle = recomputation from the reference chain model and the mempool", "DESIGN.md §5 C44"),
+    "C63": ("nodesim+threadsim/validation-notifications", "exploration",
+            "A recording CValidationInterface on a real node under MempoolSim histories with chain operations inserted (reorgs delivered in order / reversed / twice, defective blocks mid-branch, out-of-order delivery, invalidateblock with more than 10 disconnections, reconsiderblock, competing branches and transactions delivered from two driver threads). 60 % of runs use the immediate runner (real tip sampled inside every callback, notifications attributed per submission); 40 % run the real CScheduler service thread + SerialTaskRunner under the seeded thread scheduler (cooperative / preemptive / PCT, spurious wake-ups) with lazily drained queues. Oracle: BlockDisconnected only of the folded tip and BlockConnected only onto it; the folded steps equal a prefix of the true tip-change sequence (rebuilt from samples taken under cs_main) and all of it after a drain; reported blocks byte-identical to the generator's with matching index entry; UpdatedBlockTip names the folded tip; MempoolTransactionsRemovedForBlock before its BlockConnected with exactly the block's mempool transactions; per txid Added/Removed alternate starting with Added, same witness, reason never 'block', mempool sequence strictly increasing; after a drain the folded mempool equals the real one.",
+            "One known finding (single submission evicted by its own size limiter: Removed without Added). Not covered: IBD, restarts, background chainstate role, several subscribers; threads are serialised by the scheduler (no weak-memory effects).",
+            "deterministic simulation: real validation signals on the immediate runner or on the real scheduler thread scheduled by seed; oracle = fold of the recorded notification history against the sampled truth", "DESIGN.md §5 C63"),
+    "C39": ("peersim+compsim/origin-privacy", "exploration",
+            "peersim (5/6 of runs): real PeerManager with private broadcast enabled and 1-16 scripted peers of every connection flavour; the simulator is the message-handler loop (one step = one ProcessMessages or SendMessages call for one peer, a local submission through node::BroadcastTransaction in both modes, a block, a clock jump driving the Poisson inv timers); getdata in all three forms biased to the newest and to private transactions, mempool/feefilter/inv messages, private connections with right/wrong getdata and pong, echo from a public peer, public re-submission. A tx message to a non-private peer is legal only if the transaction is in the most recent block or entered the mempool before the node's last announcement round for that peer; a privately submitted transaction is not in the mempool, not in any inv or tx to a non-private peer until echoed or re-submitted; each private connection carries at most one single-entry inv of a private transaction and serves only it, only on request. compsim (1/6): real PrivateBroadcast against a counting model with small or production limits: queue <= cap, picks since (re-)add <= max attempts, results match the documented contract.",
+            "An announcement round in which every candidate was filtered (known filter, fee filter, empty BIP35 reply) sends no inv but advances the peer's last-announced sequence in the real code; the oracle counts such a round as 'announcements sent' only if getpeerinfo's last_inv_sequence changed AND a cause was observed (stated reading of the property; the unconditional-advance mutant is still caught). Scheduler-driven re-attempt tasks and ThreadPrivateBroadcast are replaced by simulator steps; no reorgs.",
+            "deterministic simulation: real net_processing with scripted peers where the simulator decides every message-handler step and clock jump; oracle = harness step counters over captured messages + counting model", "DESIGN.md §5 C39"),
     "C23": ("nodesim/block-template", "exploration",
             "MempoolSim histories plus own ops (nLockTime at height/MTP -1/0, sigop-heavy outputs, prioritisation, reorgs to MTP+1-time branches lowering the MTP) with the clock stepping backwards before template creation; per-template option space: max weight aimed at the weight of the first k baseline transactions +-1..3, reserved weight, block_min_fee_rate, coinbase sigop reservation aimed at 80000 - sigops(first k) +-1..5, use_mempool, 7 coinbase scripts. Every template: on tip, one coinbase, no duplicates, parents first, inputs in model UTXO or earlier in the template, fees == inputs - outputs, own weight sum + reserved <= max, own sigop count + reservation <= 80000, every tx final for tip+1 at MTP by the model, coinbase == subsidy + fees, TestBlockValidity on the raw and the solved block, model verdict VALID, and ProcessNewBlock makes it the tip of a cold twin node (or of the node itself).",
             "Landing exactly on a limit is within the limit; block_min_fee_rate and per-tx sigop entries are not in the statement and not decided.",
